@@ -1550,3 +1550,22 @@ Qed.
 
 Lemma f37_now : exists i, describe no_other w_f37 = Ok i /\ length (i_children i) = 2%nat.
 Proof. vm_compute. eexists. split; reflexivity. Qed.
+
+(* the fuel of the partial-body-length reader is never exhausted either: with at least
+   [length r] units the result does not depend on the fuel *)
+Lemma partial_body_fuel : forall f1 f2 chunk r,
+  (length r <= f1)%nat -> (length r <= f2)%nat ->
+  partial_body f1 chunk r = partial_body f2 chunk r.
+Proof.
+  induction f1 as [|f1 IH]; intros f2 chunk r H1 H2.
+  - destruct r; [|cbn in H1; lia]. destruct f2, chunk; reflexivity.
+  - destruct f2 as [|f2].
+    + destruct r; [destruct chunk; reflexivity|cbn in H2; lia].
+    + cbn [partial_body]. destruct (lenN r <=? chunk) eqn:E; [reflexivity|].
+      destruct (skipn (N.to_nat chunk) r) as [|c r'] eqn:Es; [reflexivity|].
+      assert (Hl : (length r' < length r)%nat).
+      { apply (f_equal (@length N)) in Es. rewrite skipn_length in Es. cbn [length] in Es. lia. }
+      destruct (c <? 192); [reflexivity|]. destruct (c <? 224); [reflexivity|].
+      destruct (c <? 255); [|reflexivity].
+      f_equal. apply IH; lia.
+Qed.
